@@ -75,6 +75,36 @@ fn check_positions(w2: &crate::w2::W2Prog, ev: &FailDesc, r: &crate::exec::RunRe
     out
 }
 
+// thorough tier: for ENUM_P generated programs, every single stored-byte corruption the
+// generator can interpret (each inter-token space -> illegal character, each
+// statement-level space -> ',', each call name, each string/list '+') is tried
+pub const ENUM_P: u64 = 2500;
+pub const ENUM_E: u64 = 360;
+
+// all single-byte corruptions of a program, in a fixed order
+fn corruption_candidates(w2: &crate::w2::W2Prog) -> Vec<Item> {
+    let mut v = vec![];
+    for n in 0..w2.tok_off.len() {
+        if let Some(off) = w2.tok_off[n] {
+            if crate::props::c17::is_op_node(w2, n) {
+                if matches!(w2.site[n].as_str(), "operator:string" | "operator:list") {
+                    v.push(Item::Flip { off, bytes: b"-".to_vec() });
+                }
+            } else {
+                v.push(Item::Flip { off, bytes: b"q".to_vec() });
+            }
+        }
+    }
+    for (i, sp) in w2.spaces.iter().enumerate() {
+        if sp.stmt_level {
+            v.push(Item::Flip { off: sp.off, bytes: b",".to_vec() });
+        }
+        v.push(Item::Flip { off: sp.off, bytes: REPL[i % REPL.len()].to_vec() });
+    }
+    v.dedup();
+    v
+}
+
 const REPL: &[&[u8]] = &[b"@", b"~", b"^", b"?", b"\x01", b"`", "é".as_bytes(), "✓".as_bytes(), b"\x0b", "𝄞".as_bytes()];
 
 impl Property for C18 {
@@ -88,7 +118,7 @@ impl Property for C18 {
         if tier == "thorough" { 1_500_000 } else { 40_000 }
     }
     fn rule(&self) -> String {
-        "case = (W2 call-tree IR rendered by the layout printer under a seeded layout: tabs, CR LF, blank lines, `;` terminators, comments with multi-byte text, continuation breaks after every documented continuation token, multi-line and multi-byte string literals before call sites) x (write error on fd 1 at a write index => the print call and every active call become reported positions | the first byte of a call's name corrupted in storage => an undefined-name position | a '+' between strings/lists corrupted into '-' => an operator position | one inter-token space replaced by a character no token starts with, incl. multi-byte ones, optionally delivered across read-chunk boundaries => a lexical error position | an inter-token space outside all brackets replaced by ',' => a syntax-error position); oracle: every <line>:<col> on stderr line 1 and on each stack-trace line equals the printer's recorded position of that call's first token; the lexical error position equals the position of the corrupted byte; non-trivial = a fault fired; distinct = distinct (program text, plan)".to_string()
+        "thorough tier first enumerates, for 2500 generated programs, every single stored-byte corruption the generator can interpret (up to 360 per program: every inter-token space -> an illegal character, every statement-level space -> ',', every call name, every string/list '+'); sampled cases: case = (W2 call-tree IR rendered by the layout printer under a seeded layout: tabs, CR LF, blank lines, `;` terminators, comments with multi-byte text, continuation breaks after every documented continuation token, multi-line and multi-byte string literals before call sites) x (write error on fd 1 at a write index => the print call and every active call become reported positions | the first byte of a call's name corrupted in storage => an undefined-name position | a '+' between strings/lists corrupted into '-' => an operator position | one inter-token space replaced by a character no token starts with, incl. multi-byte ones, optionally delivered across read-chunk boundaries => a lexical error position | an inter-token space outside all brackets replaced by ',' => a syntax-error position); oracle: every <line>:<col> on stderr line 1 and on each stack-trace line equals the printer's recorded position of that call's first token; the lexical error position equals the position of the corrupted byte; non-trivial = a fault fired; distinct = distinct (program text, plan)".to_string()
     }
     fn assumptions(&self) -> Vec<String> {
         vec![
@@ -105,7 +135,24 @@ impl Property for C18 {
         ]
     }
 
-    fn gen_case(&self, ctx: &Ctx, worker: usize, rng: &mut Rng, _index: u64) -> Case {
+    fn gen_case(&self, ctx: &Ctx, worker: usize, rng: &mut Rng, index: u64) -> Case {
+        if ctx.tier == "thorough" && index < ENUM_P * ENUM_E {
+            let prog_i = index % ENUM_P;
+            let slot = (index / ENUM_P) as usize;
+            let mut prng = Rng::for_run(ctx.seed, "C18-enum-program", prog_i);
+            // small programs, so that most of them are enumerated completely
+            let small = crate::w2::GenOpts { max_calls: 12, max_depth: 3, top_stmts: 3, interp: true };
+            let p = crate::w2::pick_with(&mut prng, &small, true);
+            let w2p = crate::w2::build(&p.aux);
+            let cands = corruption_candidates(&w2p);
+            let mut plan = Plan::new();
+            let mut aux = p.aux.clone();
+            aux["enum"] = serde_json::json!({"program": prog_i, "slot": slot, "candidates": cands.len()});
+            if slot < cands.len() {
+                plan.items.push(cands[slot].clone());
+            }
+            return Case { label: p.label, program: p.program, aux, world: World::reference(), plan };
+        }
         let layout = rng.chance(9, 10);
         let p = crate::w2::pick_with(rng, &crate::w2::GenOpts::default(), layout);
         let reference = ctx.reference(worker, &p.program);
@@ -152,6 +199,18 @@ impl Property for C18 {
         if reference.stdout != w2.stdout || reference.status != Status::Exit(0) || !reference.stderr.is_empty() {
             out.skipped = Some("baseline_mismatch".into());
             return out;
+        }
+        if let Some(e) = case.aux.get("enum") {
+            let slot = e.get("slot").and_then(|v| v.as_u64()).unwrap_or(0);
+            let cands = e.get("candidates").and_then(|v| v.as_u64()).unwrap_or(0);
+            if slot == 0 {
+                out.probes.push(if cands <= ENUM_E { "enum:program-fully-enumerated".into() } else { "enum:program-partly-enumerated".into() });
+            }
+            if slot >= cands {
+                out.skipped = Some("enum-slot-beyond-run".into());
+                return out;
+            }
+            out.probes.push("enum:case".into());
         }
         let r = ctx.run(worker, &case.program, &case.world, &case.plan);
         out.io_events = r.events.len() as u64;
